@@ -1,12 +1,1173 @@
-//! C17 — not built yet (stub; see DESIGN.md §5).
-use crate::ctx::Tier;
-use serde_json::Value;
+//! C17 — no outbound WebSocket message exceeds the assumed peer frame limit.
+//!
+//! Every (limit, total size, placement of the variable part, outbound path)
+//! combination inside the bound is executed against the real endpoints over an
+//! in-memory transport (paused current-thread runtime, so "nothing more
+//! arrives" is a deterministic observation, not a wall-clock guess):
+//!
+//!  * server paths — a real `SharedWebSocketServer` (`with_limits`, peer registry,
+//!    `on_error` hook) with a raw tungstenite peer: inline response (`with_json`),
+//!    off-reader response (`with_json_blocking`), handler-pushed notify
+//!    (`PeerHandle::send_notify` from a `with_json_ctx` handler), and the four
+//!    `PeerRegistry::broadcast_notify_*` encodings;
+//!  * proxy path — `proxy_connection_with_limits` between a raw tungstenite peer
+//!    and an `AsyncClient` whose upstream is scripted byte-for-byte;
+//!  * client paths — a real `WebSocketClient` (`connect_with_limits`, through the
+//!    `repe_verif` stream seam, real HTTP upgrade) with the harness as the
+//!    WebSocket server: request (`call_with_formats`) and notify
+//!    (`notify_with_formats`).
+//!
+//! Oracle (one clause per sentence of the property statement):
+//!  A  `oversize-on-wire`      no binary message seen by the raw peer is larger than the limit;
+//!  B  `small-refused` / `small-altered`
+//!                             a message at or below the limit (or any message when no limit is
+//!                             configured) arrives byte-identical to the unguarded encoding
+//!                             predicted by the independent `frames` oracle;
+//!  C  `replacement-*`         an oversized response is replaced by an InternalError (9) response
+//!                             bearing the same request id (itself within the limit);
+//!  D  `oversize-notify-not-dropped`, `drop-not-reported`, `drop-reported-twice`
+//!                             an oversized notification is absent from the wire and exactly one
+//!                             `OutboundTooLarge` event reaches the `on_error` hook;
+//!  E  `client-no-local-error`, `client-sent-despite-refusal`
+//!                             an oversized client request/notify fails locally with
+//!                             `MessageTooLarge` and not one byte is written;
+//!  F  `unusable-after`        in every case a following small echo on the same connection succeeds.
 
-pub fn run(_tier: Tier) -> ! {
-    eprintln!("MACHINERY-ERROR property=C17 check not built yet");
-    std::process::exit(2)
+use crate::ctx::{Ctx, Samples, Tier};
+use crate::frames::{self, Frame, Hdr};
+use crate::memstream::{self, End};
+use crate::par;
+use crate::wsh::{self, Serve};
+use futures_util::{SinkExt, StreamExt};
+use repe::tokio_tungstenite as rtt;
+use repe::websocket_server::proxy_connection_with_limits;
+use repe::{
+    AsyncClient, BodyFormat, CallContext, ConnectionError, NotifyBody, PeerRegistry, RepeError, Router,
+    WebSocketClient, WebSocketLimits, WebSocketServer,
+};
+use serde_json::{Value, json};
+use std::collections::{BTreeMap, BTreeSet};
+use std::sync::atomic::{AtomicU32, Ordering};
+use std::sync::{Arc, Mutex};
+use std::time::Duration;
+use tokio::io::{AsyncRead, AsyncWrite};
+use tokio_tungstenite::WebSocketStream;
+use tokio_tungstenite::tungstenite::Message as WsMessage;
+use tokio_tungstenite::tungstenite::protocol::{Role, WebSocketConfig};
+
+const KIB: usize = 1024;
+const MIB: usize = 1024 * 1024;
+/// virtual time: the paused clock only reaches this once nothing else can run
+const WAIT: Duration = Duration::from_secs(3600);
+const REQ_ID: u64 = 0x0C17_0007;
+const ECHO_ID: u64 = 0x0C17_00E0;
+const INTERNAL_ERROR: u32 = 9;
+
+// ------------------------------------------------------------------ the enumerated space
+
+#[derive(Clone, Copy, Debug, PartialEq, Eq, PartialOrd, Ord, Hash)]
+enum PathK {
+    Inline,
+    OffReader,
+    CtxNotify,
+    BcastJson,
+    BcastBeve,
+    BcastUtf8,
+    BcastRaw,
+    Proxy,
+    ClientCall,
+    ClientNotify,
 }
 
-pub fn replay(_case: &Value) -> Result<(), String> {
-    Err("no replay for C17 yet".into())
+const PATHS: [PathK; 10] = [
+    PathK::Inline,
+    PathK::OffReader,
+    PathK::CtxNotify,
+    PathK::BcastJson,
+    PathK::BcastBeve,
+    PathK::BcastUtf8,
+    PathK::BcastRaw,
+    PathK::Proxy,
+    PathK::ClientCall,
+    PathK::ClientNotify,
+];
+
+impl PathK {
+    fn name(self) -> &'static str {
+        match self {
+            PathK::Inline => "inline-response",
+            PathK::OffReader => "offreader-response",
+            PathK::CtxNotify => "handler-notify",
+            PathK::BcastJson => "broadcast-json",
+            PathK::BcastBeve => "broadcast-beve",
+            PathK::BcastUtf8 => "broadcast-utf8",
+            PathK::BcastRaw => "broadcast-raw",
+            PathK::Proxy => "proxy-response",
+            PathK::ClientCall => "client-call",
+            PathK::ClientNotify => "client-notify",
+        }
+    }
+    fn from_name(s: &str) -> Option<PathK> {
+        PATHS.iter().copied().find(|p| p.name() == s)
+    }
+    /// smallest body the path can produce (a JSON / BEVE string is at least 2 bytes)
+    fn min_body(self) -> usize {
+        match self {
+            PathK::Inline | PathK::OffReader | PathK::BcastJson | PathK::BcastBeve => 2,
+            _ => 0,
+        }
+    }
+    fn is_notify(self) -> bool {
+        matches!(
+            self,
+            PathK::CtxNotify | PathK::BcastJson | PathK::BcastBeve | PathK::BcastUtf8 | PathK::BcastRaw
+        )
+    }
+}
+
+#[derive(Clone, Copy, Debug, PartialEq, Eq, PartialOrd, Ord, Hash)]
+enum Place {
+    Query,
+    Body,
+    Split,
+}
+const PLACES: [Place; 3] = [Place::Query, Place::Body, Place::Split];
+impl Place {
+    fn name(self) -> &'static str {
+        match self {
+            Place::Query => "query",
+            Place::Body => "body",
+            Place::Split => "split",
+        }
+    }
+    fn from_name(s: &str) -> Option<Place> {
+        PLACES.iter().copied().find(|p| p.name() == s)
+    }
+}
+
+#[derive(Clone, Copy, Debug)]
+struct Case {
+    limit: Option<usize>,
+    /// requested total size 48 + query + body (raised to the path's minimum)
+    size: usize,
+    place: Place,
+    path: PathK,
+}
+
+impl Case {
+    fn json(&self) -> Value {
+        let (q, b) = shape(self);
+        json!({"limit": self.limit, "size": self.size, "place": self.place.name(), "path": self.path.name(),
+               "query_len": q, "body_len": b, "real_size": frames::HEADER + q + b})
+    }
+    fn from_json(v: &Value) -> Option<Case> {
+        Some(Case {
+            limit: match &v["limit"] {
+                Value::Null => None,
+                x => Some(x.as_u64()? as usize),
+            },
+            size: v["size"].as_u64()? as usize,
+            place: Place::from_name(v["place"].as_str()?)?,
+            path: PathK::from_name(v["path"].as_str()?)?,
+        })
+    }
+}
+
+fn limits_of(tier: Tier) -> Vec<Option<usize>> {
+    let mut v = match tier {
+        Tier::Quick => vec![Some(KIB), Some(64 * KIB), Some(MIB)],
+        // also the limits next to the 16-bit/64-bit WebSocket payload-length switch
+        Tier::Thorough => vec![
+            Some(KIB),
+            Some(4 * KIB),
+            Some(64 * KIB - 1),
+            Some(64 * KIB),
+            Some(64 * KIB + 1),
+            Some(256 * KIB),
+            Some(MIB),
+            Some(4 * MIB),
+            Some(16 * MIB),
+        ],
+    };
+    v.push(None);
+    v
+}
+
+fn sizes_of(limit: Option<usize>, tier: Tier) -> Vec<usize> {
+    match limit {
+        Some(l) => {
+            let w = tier.pick(2usize, 4usize);
+            let mut v: Vec<usize> = (l - w..=l + w).collect();
+            v.extend([frames::HEADER, l / 2, 2 * l]);
+            v
+        }
+        None => {
+            // no limit: sizes just above every limit used elsewhere (and above the crate's
+            // 16 MiB default in the thorough tier) must all go through unchanged
+            let mut v = vec![frames::HEADER, KIB + 1, 64 * KIB + 1, MIB + 1];
+            if tier == Tier::Thorough {
+                v.push(16 * MIB + 1);
+                v.push(32 * MIB);
+            }
+            v
+        }
+    }
+}
+
+fn enumerate(tier: Tier) -> Vec<Case> {
+    let mut out = Vec::new();
+    for limit in limits_of(tier) {
+        for size in sizes_of(limit, tier) {
+            for place in PLACES {
+                for path in PATHS {
+                    out.push(Case { limit, size, place, path });
+                }
+            }
+        }
+    }
+    out
+}
+
+/// BEVE string of n bytes: 1 header byte + compressed length (1/2/4/8 bytes) + n
+fn beve_len(n: usize) -> usize {
+    let sz = if n < 64 {
+        1
+    } else if n < 16384 {
+        2
+    } else if n < (1 << 30) {
+        4
+    } else {
+        8
+    };
+    1 + sz + n
+}
+fn beve_payload_for(b: usize) -> Option<usize> {
+    [2usize, 3, 5, 9].iter().filter_map(|o| b.checked_sub(*o)).find(|n| beve_len(*n) == b)
+}
+
+/// (query length, body length) realised for a case; 48 + q + b is the real size.
+fn shape(c: &Case) -> (usize, usize) {
+    let min_b = c.path.min_body();
+    let total = c.size.max(frames::HEADER + min_b);
+    let var = total - frames::HEADER - min_b;
+    let (mut q, mut b) = match c.place {
+        Place::Query => (var, min_b),
+        Place::Body => (0, min_b + var),
+        Place::Split => (var / 2, min_b + var - var / 2),
+    };
+    if c.path == PathK::BcastBeve {
+        // not every length is a BEVE string encoding; move bytes to the query, total unchanged
+        while beve_payload_for(b).is_none() {
+            b -= 1;
+            q += 1;
+        }
+    }
+    (q, b)
+}
+
+fn mk_query(q: usize) -> String {
+    if q == 0 { String::new() } else { format!("/{}", "q".repeat(q - 1)) }
+}
+fn raw_body(b: usize) -> Vec<u8> {
+    (0..b).map(|i| (i % 251) as u8).collect()
+}
+
+// ------------------------------------------------------------------ per-case result
+
+#[derive(Clone, Copy, Debug, PartialEq, Eq, PartialOrd, Ord)]
+enum Class {
+    Delivered,
+    Replaced,
+    Dropped,
+    Refused,
+}
+impl Class {
+    fn name(self) -> &'static str {
+        match self {
+            Class::Delivered => "delivered_unchanged",
+            Class::Replaced => "replaced_by_error",
+            Class::Dropped => "dropped_and_reported",
+            Class::Refused => "refused_locally",
+        }
+    }
+}
+
+#[derive(Default, Debug)]
+struct CaseOut {
+    viol: Vec<(String, String)>,
+    notes: Vec<String>,
+    machinery: Option<String>,
+    class: Option<Class>,
+    /// sizes of every binary message seen by the raw peer (clause A runs over all of them)
+    wire: Vec<usize>,
+    /// implementation results checked (wire messages + local call results + hook events)
+    checked: u64,
+}
+
+impl CaseOut {
+    fn bad(&mut self, c: &Case, clause: &str, what: String) {
+        let (q, b) = shape(c);
+        self.viol.push((
+            format!("C17:{}:{}", c.path.name(), clause),
+            format!(
+                "{} [limit={:?} size={} (48+{}+{}) placement={} path={}]",
+                what,
+                c.limit,
+                frames::HEADER + q + b,
+                q,
+                b,
+                c.place.name(),
+                c.path.name()
+            ),
+        ));
+    }
+    fn mach(&mut self, s: impl Into<String>) {
+        if self.machinery.is_none() {
+            self.machinery = Some(s.into());
+        }
+    }
+}
+
+enum Rx {
+    Bin(Vec<u8>),
+    Other(String),
+    End(String),
+    Nothing,
+}
+impl Rx {
+    fn describe(&self) -> String {
+        match self {
+            Rx::Bin(b) => match frames::parse_one(b) {
+                Ok(Some((f, n))) if n == b.len() => format!(
+                    "binary {} bytes (id={:#x} notify={} ec={} q={} b={})",
+                    b.len(),
+                    f.h.id,
+                    f.h.notify,
+                    f.h.ec,
+                    f.query.len(),
+                    f.body.len()
+                ),
+                _ => format!("binary {} bytes (not one REPE frame)", b.len()),
+            },
+            Rx::Other(s) => s.clone(),
+            Rx::End(s) => format!("connection ended: {s}"),
+            Rx::Nothing => "nothing".into(),
+        }
+    }
+}
+
+async fn rx<S: AsyncRead + AsyncWrite + Unpin>(ws: &mut WebSocketStream<S>, o: &mut CaseOut) -> Rx {
+    loop {
+        match tokio::time::timeout(WAIT, ws.next()).await {
+            Err(_) => return Rx::Nothing,
+            Ok(None) => return Rx::End("stream ended".into()),
+            Ok(Some(Err(e))) => return Rx::End(e.to_string()),
+            Ok(Some(Ok(WsMessage::Binary(b)))) => {
+                o.wire.push(b.len());
+                o.checked += 1;
+                return Rx::Bin(b);
+            }
+            Ok(Some(Ok(WsMessage::Text(t)))) => return Rx::Other(format!("text message of {} bytes", t.len())),
+            Ok(Some(Ok(WsMessage::Close(_)))) => return Rx::End("close frame".into()),
+            Ok(Some(Ok(_))) => continue,
+        }
+    }
+}
+
+fn parse_whole(b: &[u8]) -> Option<Frame> {
+    match frames::parse_one(b) {
+        Ok(Some((f, n))) if n == b.len() => Some(f),
+        _ => None,
+    }
+}
+
+fn fits(limit: Option<usize>, size: usize) -> bool {
+    limit.is_none_or(|l| size <= l)
+}
+
+fn unlimited_cfg() -> WebSocketConfig {
+    WebSocketLimits::unlimited().into()
+}
+fn limits_for(limit: Option<usize>) -> WebSocketLimits {
+    // inbound thresholds removed (requests carry queries up to 2x the limit); only the
+    // outbound guard under test is configured
+    WebSocketLimits::unlimited().with_assumed_peer_frame_limit(limit)
+}
+
+static SLOT: AtomicU32 = AtomicU32::new(0);
+fn next_slot() -> u16 {
+    (SLOT.fetch_add(1, Ordering::Relaxed) % 60000 + 1) as u16
+}
+
+/// Clauses B and C for a response-shaped message.
+fn check_response(o: &mut CaseOut, c: &Case, got: &Rx, expected: &Frame, id: u64) {
+    let want = expected.to_bytes();
+    if fits(c.limit, want.len()) {
+        match got {
+            Rx::Bin(b) if *b == want => o.class = Some(Class::Delivered),
+            Rx::Bin(b) => match parse_whole(b) {
+                Some(f) if f.h.ec != 0 => o.bad(
+                    c,
+                    "small-refused",
+                    format!(
+                        "a response within the limit was replaced by error {} ({:?})",
+                        f.h.ec,
+                        String::from_utf8_lossy(&f.body[..f.body.len().min(80)])
+                    ),
+                ),
+                _ => o.bad(c, "small-altered", format!("a response within the limit arrived altered: {}", got.describe())),
+            },
+            other => o.bad(c, "small-refused", format!("a response within the limit was not delivered: {}", other.describe())),
+        }
+        return;
+    }
+    let limit = c.limit.unwrap();
+    match got {
+        Rx::Bin(b) if b.len() > limit => {} // clause A reports it
+        Rx::Bin(b) => match parse_whole(b) {
+            None => o.bad(c, "replacement-malformed", format!("oversized response replaced by {}", got.describe())),
+            Some(f) if f.h.ec != INTERNAL_ERROR => o.bad(
+                c,
+                "replacement-code",
+                format!("oversized response replaced by a message with ec={} instead of InternalError(9)", f.h.ec),
+            ),
+            Some(f) if f.h.id != id => o.bad(
+                c,
+                "replacement-id",
+                format!("replacement error carries id {:#x}, the request id is {:#x}", f.h.id, id),
+            ),
+            Some(f) if f.h.notify != 0 => o.bad(c, "replacement-notify-flag", "replacement error has the notify flag set".into()),
+            Some(_) => o.class = Some(Class::Replaced),
+        },
+        other => o.bad(c, "replacement-missing", format!("oversized response: no error reply arrived ({})", other.describe())),
+    }
+}
+
+#[derive(Debug, Clone)]
+enum Ev {
+    TooLarge { size: usize, limit: usize },
+    Other(String),
+}
+
+/// Clauses B and D for a notification.
+fn check_notify(o: &mut CaseOut, c: &Case, seen: &[Vec<u8>], expected: &Frame, events: &[Ev]) {
+    let want = expected.to_bytes();
+    let reports: Vec<(usize, usize)> = events
+        .iter()
+        .filter_map(|e| match e {
+            Ev::TooLarge { size, limit } => Some((*size, *limit)),
+            _ => None,
+        })
+        .collect();
+    o.checked += events.len() as u64;
+    for e in events {
+        if let Ev::Other(s) = e {
+            o.notes.push(format!("{}: unexpected on_error event {s}", c.path.name()));
+        }
+    }
+    if fits(c.limit, want.len()) {
+        match seen {
+            [] => o.bad(c, "small-refused", "a notification within the limit never reached the peer".into()),
+            [one, rest @ ..] => {
+                if *one == want {
+                    o.class = Some(Class::Delivered);
+                } else {
+                    o.bad(c, "small-altered", format!("a notification within the limit arrived altered: {}", Rx::Bin(one.clone()).describe()));
+                }
+                if !rest.is_empty() {
+                    o.notes.push(format!("{}: notification delivered {} times", c.path.name(), seen.len()));
+                }
+            }
+        }
+        if !reports.is_empty() {
+            o.notes.push(format!("{}: OutboundTooLarge reported for a message within the limit", c.path.name()));
+        }
+        return;
+    }
+    let limit = c.limit.unwrap();
+    let mut dropped = true;
+    for m in seen {
+        dropped = false;
+        if m.len() <= limit {
+            o.bad(c, "oversize-notify-not-dropped", format!("an oversized notification was not dropped; the peer saw {}", Rx::Bin(m.clone()).describe()));
+        } // else clause A reports it
+    }
+    match reports.len() {
+        0 => o.bad(c, "drop-not-reported", "an oversized notification produced no OutboundTooLarge event on the on_error hook".into()),
+        1 => {
+            if reports[0] != (want.len(), limit) {
+                o.notes.push(format!(
+                    "{}: OutboundTooLarge reports size={} limit={} for a {}-byte message and limit {}",
+                    c.path.name(),
+                    reports[0].0,
+                    reports[0].1,
+                    want.len(),
+                    limit
+                ));
+            }
+            if dropped {
+                o.class = Some(Class::Dropped);
+            }
+        }
+        n => o.bad(c, "drop-reported-twice", format!("an oversized notification produced {n} OutboundTooLarge events instead of one")),
+    }
+}
+
+/// Clause A over everything the raw peer saw.
+fn check_wire(o: &mut CaseOut, c: &Case) {
+    if let Some(l) = c.limit {
+        if let Some(&worst) = o.wire.iter().filter(|s| **s > l).max() {
+            o.bad(c, "oversize-on-wire", format!("the peer received a binary message of {worst} bytes, over the assumed limit {l}"));
+        }
+    }
+}
+
+// ------------------------------------------------------------------ server paths
+
+async fn server_case(c: &Case, q: usize, b: usize) -> CaseOut {
+    let mut o = CaseOut::default();
+    let query = mk_query(q);
+    let events: Arc<Mutex<Vec<Ev>>> = Arc::default();
+    let registry = PeerRegistry::new();
+    let mut router = Router::new().with_json("/echo", |v: Value| Ok(v));
+    let resp_hdr = Hdr { version: 1, id: REQ_ID, query_format: 1, ..Default::default() };
+    let note_hdr = Hdr { version: 1, id: 0, notify: 1, query_format: 1, ..Default::default() };
+    let text = |ch: &str, n: usize| ch.repeat(n);
+    let expected: Frame;
+    // what the broadcast will carry
+    let mut bcast_text = String::new();
+    let mut bcast_raw = Vec::new();
+    match c.path {
+        PathK::Inline | PathK::OffReader => {
+            let s = text("j", b - 2);
+            let body = format!("\"{s}\"").into_bytes();
+            let h = move |_v: Value| Ok(Value::String(s.clone()));
+            router = if c.path == PathK::Inline { router.with_json(&query, h) } else { router.with_json_blocking(&query, h) };
+            expected = Frame::new(Hdr { body_format: frames::FMT_JSON, ..resp_hdr }, query.as_bytes(), &body);
+        }
+        PathK::CtxNotify => {
+            let body = raw_body(b);
+            let (m, bd) = (query.clone(), body.clone());
+            router = router.with_json_ctx("/push", move |ctx: &CallContext, _v: Value| {
+                let sent = match ctx.peer() {
+                    Some(p) => p.send_notify(&m, NotifyBody::Raw(bd.clone(), BodyFormat::RawBinary)).is_ok(),
+                    None => false,
+                };
+                Ok(json!(sent))
+            });
+            expected = Frame::new(Hdr { body_format: frames::FMT_RAW, ..note_hdr }, query.as_bytes(), &body);
+        }
+        PathK::BcastJson => {
+            bcast_text = text("j", b - 2);
+            expected = Frame::new(Hdr { body_format: frames::FMT_JSON, ..note_hdr }, query.as_bytes(), format!("\"{bcast_text}\"").as_bytes());
+        }
+        PathK::BcastBeve => {
+            let Some(n) = beve_payload_for(b) else {
+                o.mach(format!("no BEVE string has {b} bytes"));
+                return o;
+            };
+            bcast_text = text("v", n);
+            let enc = match beve::to_vec(&bcast_text) {
+                Ok(e) if e.len() == b => e,
+                other => {
+                    o.mach(format!("BEVE length model wrong for n={n}: {:?}", other.map(|e| e.len())));
+                    return o;
+                }
+            };
+            expected = Frame::new(Hdr { body_format: frames::FMT_BEVE, ..note_hdr }, query.as_bytes(), &enc);
+        }
+        PathK::BcastUtf8 => {
+            bcast_text = text("u", b);
+            expected = Frame::new(Hdr { body_format: frames::FMT_UTF8, ..note_hdr }, query.as_bytes(), bcast_text.as_bytes());
+        }
+        PathK::BcastRaw => {
+            bcast_raw = raw_body(b);
+            expected = Frame::new(Hdr { body_format: frames::FMT_RAW, ..note_hdr }, query.as_bytes(), &bcast_raw);
+        }
+        _ => unreachable!(),
+    }
+    debug_assert_eq!(expected.to_bytes().len(), frames::HEADER + q + b);
+    let ev = events.clone();
+    let shared = WebSocketServer::new(router)
+        .with_limits(limits_for(c.limit))
+        .with_peer_registry(registry.clone())
+        .on_error(move |e: &ConnectionError| {
+            let x = match e {
+                ConnectionError::OutboundTooLarge { size, limit, .. } => Ev::TooLarge { size: *size, limit: *limit },
+                other => Ev::Other(other.to_string().chars().take(120).collect()),
+            };
+            ev.lock().unwrap().push(x);
+        })
+        .into_shared();
+    let mut conn = wsh::connect(&shared, Serve::Plain, Some(unlimited_cfg())).await;
+    memstream::settle().await; // connect hooks ran: the peer is in the registry
+    if registry.len() != 1 {
+        o.mach(format!("peer registry holds {} peers after connect", registry.len()));
+        return o;
+    }
+
+    let mut notifies: Vec<Vec<u8>> = Vec::new();
+    let mut usable = true;
+    match c.path {
+        PathK::Inline | PathK::OffReader => {
+            let trig = Frame::request(REQ_ID, &query, b"null", frames::FMT_JSON, false);
+            if let Err(e) = conn.send_frame(&trig).await {
+                o.mach(format!("cannot send trigger: {e}"));
+                return o;
+            }
+            let got = rx(&mut conn.client, &mut o).await;
+            check_response(&mut o, c, &got, &expected, REQ_ID);
+        }
+        PathK::CtxNotify => {
+            let trig = Frame::request(REQ_ID, "/push", b"null", frames::FMT_JSON, false);
+            if let Err(e) = conn.send_frame(&trig).await {
+                o.mach(format!("cannot send trigger: {e}"));
+                return o;
+            }
+            // the notify is queued before the trigger's own response (same FIFO channel),
+            // so that response is the barrier that decides presence/absence
+            loop {
+                match rx(&mut conn.client, &mut o).await {
+                    Rx::Bin(m) => match parse_whole(&m) {
+                        Some(f) if f.h.notify == 0 && f.h.id == REQ_ID => {
+                            if f.h.ec != 0 || f.body != b"true" {
+                                o.mach(format!("handler could not push the notify: ec={} body={:?}", f.h.ec, String::from_utf8_lossy(&f.body)));
+                            }
+                            break;
+                        }
+                        _ => notifies.push(m),
+                    },
+                    other => {
+                        usable = false;
+                        o.bad(c, "unusable-after", format!("the response of the pushing request never arrived: {}", other.describe()));
+                        break;
+                    }
+                }
+            }
+        }
+        _ => {
+            let res = match c.path {
+                PathK::BcastJson => match registry.broadcast_notify_json(&query, &bcast_text) {
+                    Ok(r) => r,
+                    Err(e) => {
+                        o.mach(format!("broadcast_notify_json failed: {e}"));
+                        return o;
+                    }
+                },
+                PathK::BcastBeve => match registry.broadcast_notify_beve(&query, &bcast_text) {
+                    Ok(r) => r,
+                    Err(e) => {
+                        o.mach(format!("broadcast_notify_beve failed: {e}"));
+                        return o;
+                    }
+                },
+                PathK::BcastUtf8 => registry.broadcast_notify_utf8(&query, &bcast_text),
+                _ => registry.broadcast_notify_raw(&query, BodyFormat::RawBinary, &bcast_raw),
+            };
+            if res.len() != 1 || !res.values().all(|r| r.is_ok()) {
+                o.mach(format!("broadcast result map unexpected: {res:?}"));
+                return o;
+            }
+        }
+    }
+    // clause F (and, for broadcasts, the barrier behind the queued notification)
+    if usable {
+        let body = br#"{"k":1}"#;
+        let echo = Frame::request(ECHO_ID, "/echo", body, frames::FMT_JSON, false);
+        match conn.send_frame(&echo).await {
+            Err(e) => o.bad(c, "unusable-after", format!("cannot send the follow-up echo: {e}")),
+            Ok(()) => loop {
+                match rx(&mut conn.client, &mut o).await {
+                    Rx::Bin(m) => match parse_whole(&m) {
+                        Some(f) if f.h.notify == 0 && f.h.id == ECHO_ID && f.h.ec == 0 && f.body == body => break,
+                        // anything that is not the echo's answer was queued before it
+                        Some(f) if f.h.notify != 0 || f.h.id != ECHO_ID => notifies.push(m),
+                        _ => {
+                            o.bad(c, "unusable-after", format!("follow-up echo answered by {}", Rx::Bin(m).describe()));
+                            break;
+                        }
+                    },
+                    other => {
+                        o.bad(c, "unusable-after", format!("follow-up echo got no answer: {}", other.describe()));
+                        break;
+                    }
+                }
+            },
+        }
+    }
+    let evs = events.lock().unwrap().clone();
+    if c.path.is_notify() {
+        check_notify(&mut o, c, &notifies, &expected, &evs);
+    } else {
+        o.checked += evs.len() as u64;
+        if !notifies.is_empty() {
+            o.notes.push(format!("{}: {} unexpected notify frames", c.path.name(), notifies.len()));
+        }
+    }
+    // nothing else is in flight
+    match rx(&mut conn.client, &mut o).await {
+        Rx::Nothing => {}
+        other => o.notes.push(format!("{}: extra traffic after the echo: {}", c.path.name(), other.describe())),
+    }
+    check_wire(&mut o, c);
+    drop(conn.client);
+    match tokio::time::timeout(WAIT, conn.server).await {
+        Ok(Ok(_)) => {}
+        Ok(Err(e)) => o.bad(c, "server-task-panicked", format!("connection task ended abnormally: {e}")),
+        Err(_) => o.notes.push(format!("{}: server task still running after the peer left", c.path.name())),
+    }
+    o
+}
+
+// ------------------------------------------------------------------ proxy path
+
+/// Wait until the proxy's upstream client wrote one whole frame; returns its bytes.
+async fn upstream_request(dir: &memstream::Dir) -> Vec<u8> {
+    memstream::settle().await;
+    dir.take()
+}
+
+async fn proxy_case(c: &Case, q: usize, b: usize) -> CaseOut {
+    let mut o = CaseOut::default();
+    let (down_srv, down_cli, _dctl) = memstream::pair();
+    let (up_cli, up_srv, uctl) = memstream::pair();
+    let _keep_upstream_end = up_srv; // the harness scripts this side through `uctl`
+    let slot = next_slot();
+    repe::verif_io::register_stream(slot, up_cli);
+    let upstream = match AsyncClient::connect(("127.254.77.1", slot)).await {
+        Ok(u) => u,
+        Err(e) => {
+            o.mach(format!("AsyncClient::connect over the seam failed: {e}"));
+            return o;
+        }
+    };
+    let ws_srv = rtt::WebSocketStream::from_raw_socket(down_srv, Role::Server, Some(unlimited_cfg())).await;
+    let mut peer: WebSocketStream<End> = WebSocketStream::from_raw_socket(down_cli, Role::Client, Some(unlimited_cfg())).await;
+    let task = tokio::spawn(proxy_connection_with_limits(ws_srv, upstream, limits_for(c.limit)));
+
+    let req = Frame::request(REQ_ID, "/up", b"[1]", frames::FMT_JSON, false);
+    if let Err(e) = peer.send(WsMessage::Binary(req.to_bytes())).await {
+        o.mach(format!("cannot send through the proxy: {e}"));
+        return o;
+    }
+    let fwd = upstream_request(&uctl.a_to_b).await;
+    if fwd != req.to_bytes() {
+        o.mach(format!("proxy forwarded {} bytes upstream, expected the {}-byte request", fwd.len(), req.to_bytes().len()));
+        return o;
+    }
+    let query = mk_query(q);
+    let body = raw_body(b);
+    let resp = Frame::new(
+        Hdr { version: 1, id: REQ_ID, query_format: 1, body_format: frames::FMT_RAW, ..Default::default() },
+        query.as_bytes(),
+        &body,
+    );
+    uctl.b_to_a.push(&resp.to_bytes());
+    let got = rx(&mut peer, &mut o).await;
+    check_response(&mut o, c, &got, &resp, REQ_ID);
+
+    // clause F through the same proxy connection
+    let req2 = Frame::request(ECHO_ID, "/echo", b"7", frames::FMT_JSON, false);
+    let mut resp2 = Frame::request(ECHO_ID, "/echo", b"7", frames::FMT_JSON, false);
+    resp2.h.notify = 0;
+    match peer.send(WsMessage::Binary(req2.to_bytes())).await {
+        Err(e) => o.bad(c, "unusable-after", format!("cannot send the follow-up request: {e}")),
+        Ok(()) => {
+            let fwd2 = upstream_request(&uctl.a_to_b).await;
+            if fwd2 != req2.to_bytes() {
+                o.bad(c, "unusable-after", format!("follow-up request was not forwarded upstream ({} bytes seen)", fwd2.len()));
+            } else {
+                uctl.b_to_a.push(&resp2.to_bytes());
+                match rx(&mut peer, &mut o).await {
+                    Rx::Bin(m) if m == resp2.to_bytes() => {}
+                    other => o.bad(c, "unusable-after", format!("follow-up response through the proxy: {}", other.describe())),
+                }
+            }
+        }
+    }
+    match rx(&mut peer, &mut o).await {
+        Rx::Nothing => {}
+        other => o.notes.push(format!("proxy: extra traffic after the echo: {}", other.describe())),
+    }
+    check_wire(&mut o, c);
+    drop(peer);
+    match tokio::time::timeout(WAIT, task).await {
+        Ok(Err(e)) if e.is_panic() => o.bad(c, "server-task-panicked", format!("proxy task panicked: {e}")),
+        _ => {}
+    }
+    o
+}
+
+// ------------------------------------------------------------------ client paths
+
+async fn client_case(c: &Case, q: usize, b: usize) -> CaseOut {
+    let mut o = CaseOut::default();
+    let (cli_end, srv_end, ctl) = memstream::pair();
+    let slot = next_slot();
+    repe::verif_io::register_stream(slot, cli_end);
+    let url = format!("ws://127.254.77.1:{slot}/repe");
+    let (acc, con) = tokio::join!(
+        tokio_tungstenite::accept_async_with_config(srv_end, Some(unlimited_cfg())),
+        WebSocketClient::connect_with_limits(&url, limits_for(c.limit))
+    );
+    let (mut srv, client) = match (acc, con) {
+        (Ok(s), Ok(cl)) => (s, cl),
+        (a, b) => {
+            o.mach(format!("in-memory WebSocket handshake failed: accept={:?} connect={:?}", a.err().map(|e| e.to_string()), b.err().map(|e| e.to_string())));
+            return o;
+        }
+    };
+    let is_call = c.path == PathK::ClientCall;
+    let path = mk_query(q);
+    let body = raw_body(b);
+    let real = frames::HEADER + q + b;
+    memstream::settle().await;
+    let written_before = ctl.a_to_b.written_total();
+    let (cl2, p2, b2) = (client.clone(), path.clone(), body.clone());
+    let task = tokio::spawn(async move {
+        if is_call {
+            cl2.call_with_formats(&p2, 1, Some(&b2), frames::FMT_RAW).await.map(|m| m.body)
+        } else {
+            cl2.notify_with_formats(&p2, 1, Some(&b2), frames::FMT_RAW).await.map(|_| Vec::new())
+        }
+    });
+    // a refused send returns at once and the paused clock then runs out: Nothing
+    let got = rx(&mut srv, &mut o).await;
+    let mut seen_id = None;
+    if let Rx::Bin(m) = &got {
+        if let Some(f) = parse_whole(m) {
+            seen_id = Some(f.h.id);
+            if is_call && f.h.notify == 0 {
+                let reply = Frame::new(
+                    Hdr { version: 1, id: f.h.id, query_format: 1, body_format: frames::FMT_UTF8, ..Default::default() },
+                    f.query.as_slice(),
+                    b"ok",
+                );
+                let _ = srv.send(WsMessage::Binary(reply.to_bytes())).await;
+            }
+        }
+    }
+    let result = match tokio::time::timeout(WAIT, task).await {
+        Ok(Ok(r)) => r,
+        Ok(Err(e)) => {
+            o.bad(c, "client-panicked", format!("client call task ended abnormally: {e}"));
+            check_wire(&mut o, c);
+            return o;
+        }
+        Err(_) => Err(RepeError::Io(std::io::Error::other("harness: call never returned"))),
+    };
+    o.checked += 1;
+    memstream::settle().await;
+    let written = ctl.a_to_b.written_total() - written_before;
+    let expected = Frame::new(
+        Hdr { version: 1, id: seen_id.unwrap_or(0), notify: !is_call as u8, query_format: 1, body_format: frames::FMT_RAW, ..Default::default() },
+        path.as_bytes(),
+        &body,
+    );
+    if fits(c.limit, real) {
+        match (&got, &result) {
+            (Rx::Bin(m), Ok(_)) if *m == expected.to_bytes() => o.class = Some(Class::Delivered),
+            (Rx::Bin(m), _) if *m != expected.to_bytes() => {
+                o.bad(c, "small-altered", format!("a request within the limit arrived altered: {}", got.describe()))
+            }
+            (_, Err(e)) => o.bad(c, "small-refused", format!("a request within the limit failed: {e} (peer saw {})", got.describe())),
+            (other, Ok(_)) => o.bad(c, "small-refused", format!("a request within the limit reported success but the peer saw {}", other.describe())),
+        }
+    } else {
+        let limit = c.limit.unwrap();
+        match &result {
+            Err(RepeError::MessageTooLarge { size, limit: l }) => {
+                if *size != real || *l != limit {
+                    o.notes.push(format!("{}: MessageTooLarge reports size={size} limit={l} for a {real}-byte frame and limit {limit}", c.path.name()));
+                }
+                if written == 0 && matches!(got, Rx::Nothing) {
+                    o.class = Some(Class::Refused);
+                }
+            }
+            Err(e) => o.bad(c, "client-no-local-error", format!("an oversized request failed with {e} instead of MessageTooLarge")),
+            Ok(_) => o.bad(c, "client-no-local-error", "an oversized request reported success".into()),
+        }
+        if written != 0 || !matches!(got, Rx::Nothing) {
+            o.bad(c, "client-sent-despite-refusal", format!("an oversized request put {written} bytes on the transport (peer saw {})", got.describe()));
+        }
+    }
+    // clause F
+    let cl3 = client.clone();
+    let echo = tokio::spawn(async move { cl3.call_with_formats("/echo", 1, Some(b"ping"), frames::FMT_UTF8).await.map(|m| m.body) });
+    match rx(&mut srv, &mut o).await {
+        Rx::Bin(m) => match parse_whole(&m) {
+            Some(f) if f.query == b"/echo" && f.body == b"ping" && f.h.notify == 0 => {
+                let reply = Frame::new(
+                    Hdr { version: 1, id: f.h.id, query_format: 1, body_format: frames::FMT_UTF8, ..Default::default() },
+                    b"/echo",
+                    b"pong",
+                );
+                let _ = srv.send(WsMessage::Binary(reply.to_bytes())).await;
+                match tokio::time::timeout(WAIT, echo).await {
+                    Ok(Ok(Ok(body))) if body == b"pong" => {}
+                    other => o.bad(c, "unusable-after", format!("follow-up echo call returned {other:?}")),
+                }
+                o.checked += 1;
+            }
+            _ => o.bad(c, "unusable-after", format!("instead of the follow-up echo the peer saw {}", Rx::Bin(m).describe())),
+        },
+        other => o.bad(c, "unusable-after", format!("follow-up echo never reached the peer: {}", other.describe())),
+    }
+    match rx(&mut srv, &mut o).await {
+        Rx::Nothing => {}
+        other => o.notes.push(format!("{}: extra traffic after the echo: {}", c.path.name(), other.describe())),
+    }
+    check_wire(&mut o, c);
+    drop(client);
+    o
+}
+
+// ------------------------------------------------------------------ driver
+
+fn run_case(c: &Case) -> CaseOut {
+    let (q, b) = shape(c);
+    let r = std::panic::catch_unwind(std::panic::AssertUnwindSafe(|| {
+        memstream::run_paused(async {
+            match c.path {
+                PathK::Proxy => proxy_case(c, q, b).await,
+                PathK::ClientCall | PathK::ClientNotify => client_case(c, q, b).await,
+                _ => server_case(c, q, b).await,
+            }
+        })
+    }));
+    match r {
+        Ok(o) => o,
+        Err(p) => {
+            let msg = p.downcast_ref::<String>().cloned().or_else(|| p.downcast_ref::<&str>().map(|s| s.to_string())).unwrap_or_default();
+            let mut o = CaseOut::default();
+            o.bad(c, "panic", format!("panic while executing the case: {msg}"));
+            o
+        }
+    }
+}
+
+#[derive(Default)]
+struct Acc {
+    viol: Vec<(u64, String, String, Value)>,
+    notes: BTreeSet<String>,
+    machinery: Vec<String>,
+    classes: BTreeMap<(PathK, Class), u64>,
+    at_limit_delivered: BTreeMap<PathK, u64>,
+    plus_one_refused: BTreeMap<PathK, u64>,
+    no_limit_delivered: BTreeMap<PathK, u64>,
+    states: BTreeSet<(Option<usize>, PathK, usize, usize)>,
+    max_wire: BTreeMap<Option<usize>, usize>,
+    transitions: u64,
+    traces: u64,
+}
+
+struct StderrGag(i32);
+impl StderrGag {
+    /// The proxy path has no error hook and prints every refusal (with the whole query) to stderr.
+    fn new() -> Option<StderrGag> {
+        if std::env::var_os("VERIF_C17_STDERR").is_some() {
+            return None;
+        }
+        unsafe {
+            let saved = libc::dup(2);
+            let null = libc::open(c"/dev/null".as_ptr(), libc::O_WRONLY);
+            if saved < 0 || null < 0 {
+                return None;
+            }
+            libc::dup2(null, 2);
+            libc::close(null);
+            Some(StderrGag(saved))
+        }
+    }
+}
+impl Drop for StderrGag {
+    fn drop(&mut self) {
+        unsafe {
+            libc::dup2(self.0, 2);
+            libc::close(self.0);
+        }
+    }
+}
+
+pub fn run(tier: Tier) -> ! {
+    let ctx = Ctx::new("C17", tier);
+    let cases = enumerate(tier);
+    let samples = Samples::new(6);
+    let prev_hook = std::panic::take_hook();
+    std::panic::set_hook(Box::new(|_| {}));
+    let gag = StderrGag::new();
+    let accs = par::for_each_index(
+        cases.len() as u64,
+        1,
+        |_| Acc::default(),
+        |a: &mut Acc, i| {
+            let c = &cases[i as usize];
+            let (q, b) = shape(c);
+            let o = run_case(c);
+            a.traces += 1;
+            a.transitions += o.checked;
+            a.states.insert((c.limit, c.path, q, b));
+            if let Some(m) = o.wire.iter().max() {
+                let e = a.max_wire.entry(c.limit).or_insert(0);
+                *e = (*e).max(*m);
+            }
+            if let Some(m) = &o.machinery {
+                a.machinery.push(format!("{}: {m}", c.json()));
+            }
+            for n in &o.notes {
+                a.notes.insert(n.clone());
+            }
+            if let Some(cl) = o.class {
+                *a.classes.entry((c.path, cl)).or_insert(0) += 1;
+                let real = frames::HEADER + q + b;
+                match (c.limit, cl) {
+                    (Some(l), Class::Delivered) if real == l => *a.at_limit_delivered.entry(c.path).or_insert(0) += 1,
+                    (Some(l), Class::Replaced | Class::Dropped | Class::Refused) if real == l + 1 => {
+                        *a.plus_one_refused.entry(c.path).or_insert(0) += 1
+                    }
+                    (None, Class::Delivered) => *a.no_limit_delivered.entry(c.path).or_insert(0) += 1,
+                    _ => {}
+                }
+            }
+            if !o.viol.is_empty() {
+                // a verdict must reproduce: re-execute and compare the failing clauses
+                let again = run_case(c);
+                let k1: BTreeSet<&String> = o.viol.iter().map(|v| &v.0).collect();
+                let k2: BTreeSet<&String> = again.viol.iter().map(|v| &v.0).collect();
+                if k1 != k2 {
+                    a.machinery.push(format!("nondeterministic verdict on {}: {k1:?} then {k2:?}", c.json()));
+                }
+                for (k, w) in o.viol {
+                    a.viol.push((i, k, w, c.json()));
+                }
+            }
+            if i % 97 == 0 {
+                samples.offer(|| json!({"case": c.json(), "outcome": o.class.map(|c| c.name()), "wire_sizes": o.wire}));
+            }
+        },
+    );
+    drop(gag);
+    std::panic::set_hook(prev_hook);
+
+    let mut all = Acc::default();
+    for a in accs {
+        all.viol.extend(a.viol);
+        all.notes.extend(a.notes);
+        all.machinery.extend(a.machinery);
+        for (k, v) in a.classes {
+            *all.classes.entry(k).or_insert(0) += v;
+        }
+        for (k, v) in a.at_limit_delivered {
+            *all.at_limit_delivered.entry(k).or_insert(0) += v;
+        }
+        for (k, v) in a.plus_one_refused {
+            *all.plus_one_refused.entry(k).or_insert(0) += v;
+        }
+        for (k, v) in a.no_limit_delivered {
+            *all.no_limit_delivered.entry(k).or_insert(0) += v;
+        }
+        all.states.extend(a.states);
+        for (k, v) in a.max_wire {
+            let e = all.max_wire.entry(k).or_insert(0);
+            *e = (*e).max(v);
+        }
+        all.transitions += a.transitions;
+        all.traces += a.traces;
+    }
+    all.viol.sort_by(|x, y| (x.0, &x.1).cmp(&(y.0, &y.1)));
+    for (_, k, w, case) in &all.viol {
+        ctx.violation(k.clone(), w.clone(), case.clone());
+    }
+    for n in all.notes.iter().take(20) {
+        ctx.note(n.clone());
+    }
+    all.machinery.sort();
+    if let Some(m) = all.machinery.first() {
+        if !ctx.has_violation() || m.starts_with("nondeterministic") {
+            ctx.machinery(format!("{} harness problems, first: {m}", all.machinery.len()));
+        }
+    }
+    // non-vacuity: every path delivered something, refused something, and met both
+    // sides of the boundary
+    let mut per_path = serde_json::Map::new();
+    for p in PATHS {
+        let g = |cl: Class| all.classes.get(&(p, cl)).copied().unwrap_or(0);
+        let refused = g(Class::Replaced) + g(Class::Dropped) + g(Class::Refused);
+        let at = all.at_limit_delivered.get(&p).copied().unwrap_or(0);
+        let plus = all.plus_one_refused.get(&p).copied().unwrap_or(0);
+        let nolim = all.no_limit_delivered.get(&p).copied().unwrap_or(0);
+        per_path.insert(
+            p.name().into(),
+            json!({
+                Class::Delivered.name(): g(Class::Delivered),
+                Class::Replaced.name(): g(Class::Replaced),
+                Class::Dropped.name(): g(Class::Dropped),
+                Class::Refused.name(): g(Class::Refused),
+                "delivered_at_exactly_limit": at,
+                "refused_at_limit_plus_1": plus,
+                "delivered_with_no_limit": nolim,
+            }),
+        );
+        if !ctx.has_violation() && (g(Class::Delivered) == 0 || refused == 0 || at == 0 || plus == 0 || nolim == 0) {
+            ctx.machinery(format!(
+                "vacuous exploration on path {}: delivered={} refused={} at_limit={} limit+1={} no_limit={}",
+                p.name(),
+                g(Class::Delivered),
+                refused,
+                at,
+                plus,
+                nolim
+            ));
+        }
+    }
+    let classified: u64 = all.classes.values().sum();
+    if !ctx.has_violation() && classified != all.traces {
+        ctx.machinery(format!("{} of {} cases ended without a classified outcome", all.traces - classified, all.traces));
+    }
+    let limits: Vec<Value> = limits_of(tier).iter().map(|l| json!(l)).collect();
+    let coverage = json!({
+        "states": all.states.len(),
+        "transitions": all.transitions,
+        "traces_validated_against_impl": all.traces,
+        "samples": samples.take(),
+        "exhaustive": true,
+        "cases_enumerated": cases.len(),
+        "rule": "cross product limit x total size x placement of the variable part x outbound path; each case runs the real endpoint over an in-memory transport on a paused single-threaded runtime, followed by a small echo on the same connection; states = distinct (limit, path, query length, body length) realised (the 48-byte class collapses the three placements), transitions = binary messages seen by the raw peer + local call results + on_error events checked",
+        "bound": {
+            "limits": limits,
+            "sizes_per_limit": [format!("limit-{w}..=limit+{w}", w = tier.pick(2, 4)), "48 (path minimum: 50 where the body is a JSON/BEVE string)".to_string(), "limit/2".to_string(), "2*limit".to_string()],
+            "sizes_without_limit": sizes_of(None, tier),
+            "placements": PLACES.iter().map(|p| p.name()).collect::<Vec<_>>(),
+            "paths": PATHS.iter().map(|p| p.name()).collect::<Vec<_>>(),
+        },
+        "nonvacuity": {
+            "per_path": per_path,
+            "largest_binary_message_seen_per_limit": all.max_wire.iter().map(|(k, v)| json!({"limit": k, "bytes": v})).collect::<Vec<_>>(),
+            "distinct_outcome_classes": all.classes.keys().map(|k| k.1).collect::<BTreeSet<_>>().len(),
+        },
+    });
+    ctx.finish(
+        "model_checking",
+        coverage,
+        &[
+            "the peer's real threshold is whatever the application configured as assumed_peer_frame_limit; limits below the size of the replacement error reply (about 180 bytes) are outside the property",
+            "inbound thresholds are removed on every endpoint so that only the outbound guard decides",
+            "the shutdown-drain branch of the writer task (messages still queued when the reader exits) is not scripted: reaching it needs a send between two polls of one select",
+            "TLS and real TCP are replaced by the in-memory stream; the WebSocket framing and the HTTP upgrade are tungstenite's own",
+        ],
+    )
+}
+
+pub fn replay(case: &Value) -> Result<(), String> {
+    let c = Case::from_json(case).ok_or("case needs limit, size, place, path")?;
+    let _gag = StderrGag::new();
+    let o = run_case(&c);
+    if let Some(m) = o.machinery {
+        return Err(format!("machinery: {m}"));
+    }
+    if o.viol.is_empty() {
+        Ok(())
+    } else {
+        Err(o.viol.iter().map(|(k, w)| format!("{k}: {w}")).collect::<Vec<_>>().join("\n"))
+    }
 }
